@@ -32,11 +32,14 @@ type Session struct {
 	cmd    *exec.Cmd
 	in     io.WriteCloser
 	out    *bufio.Reader
+	lines  chan string
 	depth  int
 	nquery int
 	dead   bool
 	log    *os.File
 	total  time.Duration
+	frames [][]string // mirror of what the solver holds, per push level (for restarts)
+	restarts int
 }
 
 func solverPath(name string) string {
@@ -55,6 +58,15 @@ func solverPath(name string) string {
 }
 
 func NewSession() *Session {
+	s := &Session{frames: [][]string{nil}}
+	if p := os.Getenv("GCV_SESSION_LOG"); p != "" {
+		s.log, _ = os.Create(p)
+	}
+	s.start()
+	return s
+}
+
+func (s *Session) start() {
 	cmd := exec.Command(solverPath("z3-new"), "-in")
 	in, _ := cmd.StdinPipe()
 	outp, _ := cmd.StdoutPipe()
@@ -62,16 +74,26 @@ func NewSession() *Session {
 	if err := cmd.Start(); err != nil {
 		fatalf("cannot start z3-new: %v", err)
 	}
-	s := &Session{cmd: cmd, in: in, out: bufio.NewReader(outp)}
-	if p := os.Getenv("GCV_SESSION_LOG"); p != "" {
-		s.log, _ = os.Create(p)
-	}
-	s.send(fmt.Sprintf("(set-option :timeout %d)\n", envInt("GCV_SESSION_TIMEOUT_MS", 250)))
-	s.send(prelude)
-	return s
+	s.cmd, s.in, s.out = cmd, in, bufio.NewReader(outp)
+	s.dead = false
+	lines := make(chan string, 16)
+	s.lines = lines
+	rd := s.out
+	go func() {
+		for {
+			l, err := rd.ReadString('\n')
+			if err != nil {
+				close(lines)
+				return
+			}
+			lines <- l
+		}
+	}()
+	s.raw(fmt.Sprintf("(set-option :timeout %d)\n", envInt("GCV_SESSION_TIMEOUT_MS", 250)))
+	s.raw(prelude)
 }
 
-func (s *Session) send(txt string) {
+func (s *Session) raw(txt string) {
 	if s.dead {
 		return
 	}
@@ -83,6 +105,28 @@ func (s *Session) send(txt string) {
 	}
 }
 
+// restart kills a wedged solver and rebuilds its assertion stack from the mirror.
+func (s *Session) restart() {
+	s.restarts++
+	s.in.Close()
+	s.cmd.Process.Kill()
+	s.cmd.Wait()
+	s.start()
+	for i, f := range s.frames {
+		if i > 0 {
+			s.raw("(push 1)\n")
+		}
+		for _, c := range f {
+			s.raw(c)
+		}
+	}
+}
+
+func (s *Session) send(txt string) {
+	s.frames[len(s.frames)-1] = append(s.frames[len(s.frames)-1], txt)
+	s.raw(txt)
+}
+
 func (s *Session) Close() {
 	if s.cmd != nil {
 		s.in.Close()
@@ -91,8 +135,14 @@ func (s *Session) Close() {
 	}
 }
 
-func (s *Session) Push() { s.send("(push 1)\n"); s.depth++ }
-func (s *Session) Pop()  { s.send("(pop 1)\n"); s.depth-- }
+func (s *Session) Push() { s.raw("(push 1)\n"); s.frames = append(s.frames, nil); s.depth++ }
+func (s *Session) Pop() {
+	s.raw("(pop 1)\n")
+	if len(s.frames) > 1 {
+		s.frames = s.frames[:len(s.frames)-1]
+	}
+	s.depth--
+}
 
 func (s *Session) Add(e PCEntry) { s.send(e.SMT() + "\n") }
 
@@ -103,8 +153,17 @@ func (s *Session) CheckWith(extra *Term) Verdict {
 	}
 	s.nquery++
 	t0 := time.Now()
-	s.send("(push 1)\n(assert " + extra.s + ")\n(check-sat)\n(pop 1)\n")
-	line, err := s.out.ReadString('\n')
+	s.raw("(push 1)\n(assert " + extra.s + ")\n(check-sat)\n(pop 1)\n")
+	var line string
+	ok := true
+	select {
+	case line, ok = <-s.lines:
+	case <-time.After(time.Duration(envInt("GCV_SESSION_TIMEOUT_MS", 250)*4+1500) * time.Millisecond):
+		// the solver ignored its own timeout (seen with string constraints): start over
+		s.restart()
+		s.total += time.Since(t0)
+		return Unknown
+	}
 	s.total += time.Since(t0)
 	if d := time.Since(t0); d > 300*time.Millisecond && os.Getenv("GCV_TRACE") != "" {
 		h := extra.s
@@ -113,8 +172,8 @@ func (s *Session) CheckWith(extra *Term) Verdict {
 		}
 		fmt.Fprintf(os.Stderr, "slow session query #%d %.2fs -> %s: %s\n", s.nquery, d.Seconds(), strings.TrimSpace(line), h)
 	}
-	if err != nil {
-		s.dead = true
+	if !ok {
+		s.restart()
 		return Unknown
 	}
 	line = strings.TrimSpace(line)
